@@ -59,6 +59,7 @@ def main():
     n = 1500 if quick else 12000
     cases = []
     for i in range(n):
+        atthr = False
         vs = list(rng.choice([("x",), ("x", "y")]))
         thr = {v: rng.choice([0, 1, 2]) for v in vs}
         def atom():
@@ -89,8 +90,10 @@ def main():
             # rise / fall of a polarity-sensitive operand (the operand is explained at t and, with the opposite polarity, at t-1)
             q = bi(rng.choice(["and", "or", "implies"]), atom(), atom()) if rng.random() < 0.7 else un(rng.choice(["alwT", "evT", "onceT"]), atom(), *rng.choice(IVS))
             q = un(rng.choice(["rise", "fall"]), q)
-            phi = rng.choice([q, un("not", q), un("evT", q, 0, rng.choice([1, 2, 3])), un("alwT", q, 0, rng.choice([1, 2])), un("next", q)])
+            phi = rng.choice([q, un("not", q), un("evT", q, 0, rng.choice([1, 2, 3])), un("alwT", q, 0, rng.choice([1, 2])), un("next", q),
+                              un("alwT", q, 2, 2), un("evT", q, 1, 1)])
             N = rng.choice([2, 3, 4])
+            atthr = rng.random() < 0.5        # many samples exactly on the threshold (seed r11 C20-1: fall with an operand of robustness 0)
         if rng.random() < 0.08:
             # a bounded operator that receives a multi-sample interval from its parent, on a trace long enough that the windows
             # are not clipped by the end of the trace (one variable, N up to 7)
@@ -125,6 +128,19 @@ def main():
                 phi = rng.choice([un("not", phi), un("alw", phi), un("evT", phi, 0, 1), bi("or", phi, atom()), un("neg", phi)])
             N = rng.choice([2, 3, 4])
         uniform = False
+        samenum = False
+        if rng.random() < 0.04:
+            # two bounded operators whose bounds are written with the same numbers and different units ([0:2] next to [0:2s], default
+            # unit ms, one sample per ms): 2 samples and 2000 samples (seed r11 C20-2: sample counts memoised by the numbers alone)
+            v0 = rng.choice(vs)
+            mk = lambda d_: pred(rng.choice(["ge", "gt"]), var(v0), const(thr[v0] + d_))
+            o1, o2 = rng.choice(["evT", "alwT"]), rng.choice(["evT", "evT", "alwT"])
+            l_, r_ = un(o1, mk(0), 0, 2), un(o2, mk(1), 0, 2000)
+            l_["unit_"], r_["unit_"] = "", "s"
+            phi = bi("or", *((l_, r_) if rng.random() < 0.7 else (r_, l_)))
+            N = rng.choice([5, 6])
+            uniform = True
+            samenum = True
         if rng.random() < 0.06:
             # prev / s_prev (next / s_next) handed an interval that starts at time 0 and spans several samples by its parent
             # (seed C20-d: the interval [0, e] dropped instead of shifted)
@@ -154,6 +170,10 @@ def main():
                 phi = un("not", phi)
             N = rng.choice([6, 7])
             uniform = rng.random() < 0.7
+        if samenum and len(vars_of(phi)) == 1:
+            pass
+        elif samenum:
+            samenum = False
         zig = False
         if rng.random() < 0.1:
             # an operator that is explained at several positions over an operand with several separate violating (satisfying)
@@ -179,15 +199,27 @@ def main():
             side = rng.choice([None, None, -1, 1])
             w[v] = [thr[v] + (rng.choice([-1, 0, 1]) if side is None or rng.random() < 0.15 else side) for _ in range(N)]
             if uniform:
-                s0 = rng.choice([-1, 1])
+                s0 = rng.choice([-1, 1]) if not samenum else -1
                 w[v] = [thr[v] + 2 * s0] * N
+            if atthr and not zig and not uniform:
+                w[v] = [thr[v] + rng.choice([-1, 0, 0, 0, 1]) for _ in range(N)]
             if zig:      # alternating runs around the threshold
                 s0 = rng.choice([-1, 1]); runs = []
                 while len(runs) < N:
                     runs += [s0] * rng.choice([1, 1, 2]); s0 = -s0
                 w[v] = [thr[v] + r_ * rng.choice([1, 1, 2]) for r_ in runs[:N]]
         o = dt_obj(phi, 1, vs_used, factory="StlDiscreteTimeOfflineSpecification")
-        if (ops_of(phi) & TIMED) and rng.random() < 0.25:
+        if samenum and all("unit_" in q_ for q_ in subformulas(phi) if q_["op"] in TIMED):
+            import copy as _copy
+            written = _copy.deepcopy(phi)
+            for q_ in subformulas(written):
+                if q_["op"] in TIMED:
+                    q_.update({"aw": [0, 1], "bw": [2, 1], "au": "", "bu": q_["unit_"], "at": "0", "bt": "2", "fa": "0", "fb": "2"})
+            for q_ in list(subformulas(phi)) + list(subformulas(written)):
+                q_.pop("unit_", None)
+            o = dt_obj(phi, 1, vs_used, factory="StlDiscreteTimeOfflineSpecification", text="out = " + to_text(written, 1), written=written,
+                       units={"def": "ms", "pnum": 1, "pden": 1, "punit": "ms"}, unit="ms", set_period=[1, "ms", 0.1])
+        elif (ops_of(phi) & TIMED) and rng.random() < 0.25:
             # bounds written with units, a sampling period other than one default unit: the explainer must read the bounds in samples
             import c08 as _c08
             pnum, punit = rng.choice([(500, "ms"), (2, "s"), (250, "us"), (100, "ms"), (1, "s")])
